@@ -364,7 +364,10 @@ func init() {
 				// 0-3 patch files without operations, and a stdin that is ill-formed, not compact, a scalar, null,
 				// empty, or holds '%': the command must do exactly what folding Apply over the files does
 				legacy := idx%3 == 0
-				hp := gen.Hostile().With(func(p *gen.Profile) { p.WS = 40; p.Strings = append(append([]string{}, gen.HostileStrings...), "50%", "%d") })
+				hp := gen.Hostile().With(func(p *gen.Profile) {
+					p.WS = 40
+					p.Strings = append(append([]string{}, gen.HostileStrings...), "50%", "%d")
+				})
 				var doc string
 				switch c.R.Intn(8) {
 				case 0:
